@@ -88,6 +88,16 @@ def run(rep, tier, seed):
                     fds_e.append(_RFD(f.id, len(fb), f.position, DI.BIDIRECTIONAL, mk(''), _MO.IGNORE, _CDA.VALUE_SENT))
             pd.direction = DI.UP
             case_match(b, pd, [_RD(id=mk(randbits(rnd, 5)), field_descriptors=fds_e)], klass='match-edited-targets:' + stack)
+        if i % 5 == 2:
+            # a packet descriptor WITHOUT fields (a caller-assembled stack that parses nothing, raw payload): a compression rule that has no
+            # descriptor for that direction applies (as many descriptors as fields: none), one that has some does not
+            from microschc.rfc8724 import PacketDescriptor as _PD, RuleDescriptor as _RD2
+            pd0 = _PD(direction=rnd.choice([DI.UP, DI.DOWN]), fields=[], payload=mk(randbits(rnd, rnd.choice([0, 8, 40]))))
+            other_ = DI.DOWN if pd0.direction == DI.UP else DI.UP
+            r_other = gen_rule(rnd, pd, randbits(rnd, 4), kinds=('ns', 'vs'), direction=other_)
+            rules0 = [_RD2(id=mk('00'), field_descriptors=[]), _RD2(id=mk('01'), field_descriptors=r_other.field_descriptors), gen_rule(rnd, pd, '10' + randbits(rnd, 2), kinds=('ns', 'vs')), no_compression_rule('11')]
+            rnd.shuffle(rules0)
+            case_match(b, pd0, rules0, klass='match-packet-without-fields')
         if i % 4 == 0:
             # two matchers of ONE Ruler alive at the same time (the generator is lazy: a caller may take one rule for packet A, start
             # on packet B, then come back for the next rule of A): each must go on with its own packet
